@@ -313,6 +313,17 @@ def euler_rotation_angles(matrix: Tensor, order: Optional[str] = None) -> Tensor
             angles[..., 2] = torch.atan2(matrix[..., 2, 0], matrix[..., 2, 1])
         else:
             raise NotImplementedError(f"euler_rotation_angles() order={order!r}")
+        # Middle angle is 0 or pi: the rotation is about the outer axis alone and the above atan2() arguments
+        # are all zero. Assign the whole rotation about this axis to the first angle, and zero to the third.
+        i, j = (1, 2) if order == "XZX" else (0, 1)
+        k = 0 if order == "XZX" else 2
+        sin_beta = torch.hypot(matrix[..., i, k], matrix[..., j, k])
+        degenerate = sin_beta.lt(10 * torch.finfo(matrix.dtype).eps)
+        if degenerate.any():
+            sign = matrix[..., k, k].sign() if order == "XZX" else 1
+            alpha = torch.atan2(sign * matrix[..., j, i], sign * matrix[..., i, i])
+            angles[..., 0] = torch.where(degenerate, alpha, angles[..., 0])
+            angles[..., 2] = torch.where(degenerate, torch.zeros_like(alpha), angles[..., 2])
     return angles
 
 
